@@ -209,3 +209,45 @@ func VerifC16_ValueCopy() {
 	got, ok := iv.ValueFor().(int64)
 	verifAssert(ok && got == 42, "copied value reads back")
 }
+
+// containers: the stored value is a snapshot (mutating the source afterwards does not change it) and every read
+// hands out its own container (mutating what one read returned does not change the stored value or a later read).
+// Payloads are bools and strings (JSON keeps their Go type; numbers come back as float64 and are not used here).
+func VerifC16_ContainerFresh() {
+	k := verifNondetInt("kind", 0, 1)
+	d := verifNondetInt("declared", 0, 1)
+	x := verifNondetBool("x")
+	verifReach("built")
+	if k == 0 {
+		src := map[string]any{"a": x}
+		decl := ItemType("")
+		if d == 1 {
+			decl = ItemTypeObject
+		}
+		iv := verifStore(decl, src)
+		src["a"] = "changed at the source"
+		r1, ok1 := iv.ValueFor().(map[string]any)
+		verifAssert(ok1 && len(r1) == 1 && r1["a"] == any(x), "object reads back with the content it was stored with")
+		if ok1 {
+			r1["a"] = "changed by a reader"
+			r1["b"] = true
+		}
+		r2, ok2 := iv.ValueFor().(map[string]any)
+		verifAssert(ok2 && len(r2) == 1 && r2["a"] == any(x), "a reader changing the container it was given does not change the stored object")
+	} else {
+		src := []any{x, "y"}
+		decl := ItemType("")
+		if d == 1 {
+			decl = ItemTypeArray
+		}
+		iv := verifStore(decl, src)
+		src[0] = "changed at the source"
+		r1, ok1 := iv.ValueFor().([]any)
+		verifAssert(ok1 && len(r1) == 2 && r1[0] == any(x) && r1[1] == any("y"), "array reads back with the content it was stored with")
+		if ok1 && len(r1) == 2 {
+			r1[0] = "changed by a reader"
+		}
+		r2, ok2 := iv.ValueFor().([]any)
+		verifAssert(ok2 && len(r2) == 2 && r2[0] == any(x), "a reader changing the container it was given does not change the stored array")
+	}
+}
